@@ -110,4 +110,37 @@ CHECKS = {
         'note': 'Trusted: python ast; the listed construction sites were confirmed by reading.',
         'design_ref': 'DESIGN.md section 3, C08',
     },
+    'C11': {
+        'level': 'other',
+        'technique': 'decision functions with term leaves (ast paths / MIR paths) compared with the textbook substitution table on all valuations',
+        'text': 'apply_esubst, apply_ssubst and instantiate of all Python pattern classes and the Rust apply_esubst / apply_ssubst / '
+                'instantiate_internal arms equal, on every valuation of their conditions, the textbook per-constructor definition '
+                '(free occurrences only, shadowing at the own binder, deferred on metavariables and pending substitutions, distribution, '
+                'pending substitutions resolved at instantiation; Rust additionally the capture checks); the notation node substitutes '
+                'in its expansion and instantiates with one merged map over the untouched body. By induction over patterns this yields '
+                'the per-constructor laws for all inputs. The composition law as an equation over all maps is not evaluated.',
+        'note': 'Trusted: spec/substitution.py; well-formed heads of pending substitutions (C01 S2); python ast, rustc MIR.',
+        'design_ref': 'DESIGN.md section 3, C11',
+    },
+    'C12': {
+        'level': 'other',
+        'technique': 'dispatch-exhaustiveness lint (isinstance / match on pattern constructors) + delegation-shape rule for the notation node',
+        'text': 'Every dispatcher on concrete pattern constructors in pattern.py and the notation libraries (8 sites) expands a notation '
+                'node and re-dispatches; the notation node\'s evar_is_free, apply_esubst, apply_ssubst and __eq__ are the operation on the '
+                'expansion (non-delegating bodies are decided only through necessary conditions, else the run is analysis-broken); '
+                'simplify is body.instantiate(inst). Congruence at every nesting depth beyond these facts is not evaluated.',
+        'note': 'Trusted: python ast. __eq__/__hash__ incoherence is reported as advisory only.',
+        'design_ref': 'DESIGN.md section 3, C12',
+    },
+    'C13': {
+        'level': 'other',
+        'technique': 'type-directed truthiness lint with resolved callees + structural shape rules for match_single',
+        'text': 'No successful result of the matching / destructuring API (match_single, match, Notation.matches, unwrap, deconstruct) is '
+                'ever tested by truthiness where its type has falsy inhabitants (empty dict, empty tuple, 0): types come from the resolved '
+                'callee\'s annotation; plus the shape of match_single (both sides destructured per constructor, bound metavariables '
+                'compared not rebound, substitution threaded, notation expanded first). Decides that the empty substitution / id 0 is '
+                'never taken for failure; soundness/completeness as equations are not evaluated.',
+        'note': 'Trusted: return annotations; two triaged intended emptiness tests.',
+        'design_ref': 'DESIGN.md section 3, C13',
+    },
 }
